@@ -183,18 +183,8 @@ pub fn span_cfg() -> GenCfg {
     cfg
 }
 
-impl Prop for C02 {
-    type Case = AstCase;
-    fn id(&self) -> &'static str {
-        "C02"
-    }
-    fn parts(&self, tier: Tier) -> Vec<Part<AstCase>> {
-        let s = (gen::node_strategy(&span_cfg()), gen::flags_strategy("ims"), gen::raw_inputs(8, 10))
-            .prop_map(|(node, flags, inputs)| AstCase { node, flags, inputs: Inputs::Raw(inputs) })
-            .boxed();
-        vec![Part { name: "random".into(), strategy: s, cases: tier.pick(250_000, 5_000_000) }]
-    }
-    fn extra(&self, ctx: &mut Ctx) -> Vec<(String, Verdict, Option<AstCase>)> {
+impl C02 {
+    fn extra_selftest(&self, ctx: &mut Ctx) -> Vec<(String, Verdict, Option<AstCase>)> {
         // oracle self-test (no engine involved): R2's first match must be a member of R1's match relation and start at
         // the leftmost position where R1 has any match; where R2 finds nothing, R1 must find nothing. A disagreement
         // is a bug of the harness, not of regexml: exit 2.
@@ -247,6 +237,19 @@ impl Prop for C02 {
         ctx.obs.label(&format!("oracle-selftest:R1-R2-agreements={agreed}"));
         vec![]
     }
+}
+
+impl Prop for C02 {
+    type Case = AstCase;
+    fn id(&self) -> &'static str {
+        "C02"
+    }
+    fn parts(&self, tier: Tier) -> Vec<Part<AstCase>> {
+        let s = (gen::node_strategy(&span_cfg()), gen::flags_strategy("ims"), gen::raw_inputs(8, 10))
+            .prop_map(|(node, flags, inputs)| AstCase { node, flags, inputs: Inputs::Raw(inputs) })
+            .boxed();
+        vec![Part { name: "random".into(), strategy: s, cases: tier.pick(250_000, 5_000_000) }]
+    }
     fn enumerations(&self, tier: Tier) -> Vec<(String, String, Box<dyn Iterator<Item = AstCase> + Send>)> {
         // every small pattern over two letters, dot and a class, with every quantifier form, on every short input
         let cfg = crate::enumerate::EnumCfg {
@@ -277,6 +280,13 @@ impl Prop for C02 {
         // spans are only defined for regexes that cannot match the empty string
         let it2 = it2.filter(|c| !c.node.possibly_empty());
         vec![("exhaustive-small".into(), scope, Box::new(it)), (name, format!("the non-nullable ones among: {scope2}"), Box::new(it2))]
+    }
+    fn extra(&self, ctx: &mut Ctx) -> Vec<(String, Verdict, Option<AstCase>)> {
+        let mut v = self.extra_selftest(ctx);
+        if v.iter().all(|x| !matches!(x.1, Verdict::Fail(_))) {
+            v.extend(super::c01::lang_campaign("C02", "spans", ctx, &|case, ctx| check_spans("C02", case, ctx)));
+        }
+        v
     }
     fn check(&self, case: &AstCase, ctx: &mut Ctx) -> Verdict {
         check_spans("C02", case, ctx)
